@@ -344,10 +344,22 @@ fn run_conc(args: &Args) -> ! {
     // trees from 2^8 leaves: whatever MerkleTree::new routes to the parallel builder must be right
     let logs: Vec<u32> = if thorough { vec![8, 9, 10, 11, 12, 13, 14] } else { vec![8, 9, 10, 11, 12] };
     let mut jobs: Vec<(u8, u32)> = logs.iter().map(|l| (0u8, *l)).collect();
-    jobs.push((1, 11));
-    let outs = mck::par_map(jobs.len(), |j| match jobs[j].0 {
-        0 => one::<Blake3_256<B64>>("Blake3_256", jobs[j].1, &ts_all, &ts_dev),
-        _ => one::<Rp64_256>("Rp64_256", jobs[j].1, &ts_all, &ts_dev),
+    // every other hasher on one tree above the threshold (merge and merge_many of two digests differ for
+    // the Jive hasher only; the parallel builder must use the hasher's own pairwise merge everywhere)
+    for h in 1..=5u8 {
+        jobs.push((h, 11));
+    }
+    let outs = mck::par_map(jobs.len(), |j| {
+        use winter_crypto::hashers::{Blake3_192, Rp62_248, RpJive64_256};
+        use winter_math::fields::f62::BaseElement as B62;
+        match jobs[j].0 {
+            0 => one::<Blake3_256<B64>>("Blake3_256", jobs[j].1, &ts_all, &ts_dev),
+            1 => one::<Rp64_256>("Rp64_256", jobs[j].1, &ts_all, &ts_dev),
+            2 => one::<RpJive64_256>("RpJive64_256", jobs[j].1, &ts_all, &ts_dev),
+            3 => one::<Sha3_256<B64>>("Sha3_256", jobs[j].1, &ts_all, &ts_dev),
+            4 => one::<Blake3_192<B64>>("Blake3_192", jobs[j].1, &ts_all, &ts_dev),
+            _ => one::<Rp62_248>("Rp62_248", jobs[j].1, &ts_all, &ts_dev),
+        }
     });
     let (mut evals, mut sched, mut nontrivial, mut tasks) = (0, 0, 0, 0);
     let mut regions = vec![];
